@@ -6402,6 +6402,8 @@ class Path(Shape, MutableSequence):
             end_pos = arc_args[index + 5]
             if end_pos in ("z", "Z"):
                 end_pos = self.z_point
+                if end_pos is None:
+                    raise ValueError("closing arc requires the start of a subpath")
             self.append(
                 Arc(start_pos, rx, ry, rotation, arc, sweep, end_pos, relative=relative)
             )
